@@ -15,8 +15,8 @@ P == Progs[pid]
 RECURSIVE SettleAll(_, _)
 SettleAll(Pr, s) ==
   IF s.aborted THEN s
-  ELSE IF \E a \in Actors(Pr) : s.ph[a] = "answered"
-  THEN LET a == CHOOSE x \in Actors(Pr) : s.ph[x] = "answered" IN
+  ELSE IF \E a \in Actors(Pr) : s.ph[a] = "answered" /\ ~s.susp[a]          \* (a suspended actor observes nothing)
+  THEN LET a == CHOOSE x \in Actors(Pr) : s.ph[x] = "answered" /\ ~s.susp[x] IN
        SettleAll(Pr, IF MoreSub(Pr, s, a) THEN NextSub(Pr, s, a) ELSE Ret(Pr, s, a))
   ELSE IF \E a \in Actors(Pr) : s.ph[a] = "dying"
   THEN LET a == CHOOSE x \in Actors(Pr) : s.ph[x] = "dying" IN SettleAll(Pr, Terminate(Pr, s, a, "dead"))
@@ -85,6 +85,9 @@ MessFifo ==
             \A j \in 1..(i - 1) : IsSend(st.act[st.mqq[q][j]]) # IsSend(st.act[c])]_vars
 CvFifo ==
   [][\A c \in Cvs(P) : IsPrefixOrLeaver(st.cq[c], st'.cq[c])]_vars
+\* C11: a suspended actor makes no progress until it is resumed (or killed)
+SuspendedNoProgress ==
+  [][\A a \in Actors(P) : (st.susp[a] /\ st'.susp[a]) => (st'.obs[a] = st.obs[a] /\ st'.pc[a] = st.pc[a] /\ st'.oerun[a] = st.oerun[a])]_vars
 
 IsTerminal == st.aborted \/ Terminal(P, st)
 PrintOutcomes == IsTerminal => PrintT(<<"OUT", pid, ToJson(Outcome(P, st))>>)
